@@ -102,6 +102,11 @@ type knobSpec struct {
 // knobFiles lists the knobs per file. If the source no longer matches, the
 // knob is simply not applied (Stats.Knobs says how many were).
 var knobFiles = map[string][]knobSpec{
+	"/p2p/protocol.go": {
+		{Ident: "numBuffers", Name: "p2p.numBuffers"},
+		{Ident: "writeBufSize", Name: "p2p.writeBufSize"},
+		{Ident: "readBufSize", Name: "p2p.readBufSize"},
+	},
 	"/gmw/triples.go": {
 		{Ident: "lowWaterMark", Name: "gmw.lowWaterMark"},
 		{AssignLHS: "batchSize", Name: "gmw.batchSize"},
